@@ -24,7 +24,9 @@ REQ_CLOSED = REQ + ["Imports.Import", "Imports.ImportSet", "Imports.Format", "Im
 
 warnings.simplefilter("ignore", SyntaxWarning)
 
-ANCHORS = ["pyflyby._imports2s:SourceToSourceFileImportsTransformation.preprocess",
+ANCHORS = ["pyflyby._imports2s:SourceToSourceFileImportsTransformation.add_import",
+           "pyflyby._cmdline:action_print", "pyflyby._cmdline:parse_args",
+           "pyflyby._imports2s:SourceToSourceFileImportsTransformation.preprocess",
            "pyflyby._imports2s:SourceToSourceFileImportsTransformation.pretty_print",
            "pyflyby._imports2s:SourceToSourceFileImportsTransformation.insert_new_blocks_after_comments",
            "pyflyby._imports2s:SourceToSourceFileImportsTransformation.insert_new_import_block",
@@ -35,7 +37,7 @@ ANCHORS = ["pyflyby._imports2s:SourceToSourceFileImportsTransformation.preproces
            "pyflyby._imports2s:transform_imports", "pyflyby._imports2s:canonicalize_imports",
            "pyflyby._imports2s:reformat_import_statements"]
 
-TOOLS = ["reformat", "reformat_str", "reformat_ft", "tidy", "star", "broken", "transform", "canonicalize", "transform_map", "canonicalize_map", "cli_reformat", "cli_tidy"]
+TOOLS = ["reformat", "reformat_str", "reformat_ft", "tidy", "star", "broken", "transform", "canonicalize", "transform_map", "canonicalize_map", "cli_reformat", "cli_tidy", "cli_multi", "cli_pyproject"]
 
 # internal errors that belong to C03 (block selection / import-set algebra; F23, F24): counted, not judged here
 C03_EXCEPTIONS = {"LineNumberAmbiguousError", "ConflictingImportsError", "OutputUnparsable"}
@@ -75,6 +77,8 @@ WITNESSES = [
     ("bytes4", "tidy", "# c\nb'x' b'y'"),
     ("fstr1", "tidy", "# c\nf'{x}'\n'doc'\n"),
     ("concat1", "tidy", "'a' \"b\"\n'second'\ny = 1\n"),
+    ("usebefore1", "tidy", '"""doc"""\nx = os.getcwd()\nimport os\nprint(os)\n'),
+    ("usebefore2", "tidy", "x = d.attr\nimport d\n"),
     ("nested", "reformat", "if x:\n    import b, a\nimport d, c  # gone\n# kept\nimport e\n"),
 ]
 
@@ -135,7 +139,7 @@ def gen_cases(ctx, n, ncorpus=0):
                 cases.append({"kind": "corpus", "path": path, "tool": "reformat", "src": src, "sp": [1, 1], "params": {}, "db": 0,
                               "flags": [True, True, True]})
     for tag, tool, src in WITNESSES:
-        cases.append({"kind": "witness", "tag": tag, "tool": tool, "src": src, "sp": [1, 1], "params": {}, "db": 2 if tag in ("bytes1", "bytes2", "bytes3", "fstr1") else 3 if tag.startswith("doc") or tag in ("top", "comment_only_first", "F39", "F39b", "F39c", "F39d", "F9", "deco", "bytes4", "concat1") else 0,
+        cases.append({"kind": "witness", "tag": tag, "tool": tool, "src": src, "sp": [1, 1], "params": {}, "db": 2 if tag in ("bytes1", "bytes2", "bytes3", "fstr1") else 3 if tag.startswith("doc") or tag in ("top", "comment_only_first", "F39", "F39b", "F39c", "F39d", "F9", "deco", "bytes4", "concat1", "usebefore1", "usebefore2") else 0,
                       "flags": [True, True, True]})
     for tag, tool, src, m in [
             ("map1", "transform_map", "import os\nm_x = 1\ns = 'm/x'  # m-x mXx\nprint(m_x)\n", {"m.x": "n.y"}),
@@ -145,6 +149,15 @@ def gen_cases(ctx, n, ncorpus=0):
             ("map3", "transform_map", "x = 1\nzq_w = 2  # zq$w zq..w\n", {"zq.w": "n.y"})]:
         cases.append({"kind": "witness", "tag": tag, "tool": tool, "src": src, "sp": [1, 1], "params": {}, "db": 0,
                       "flags": [True, True, True], "map": m})
+    cases.append({"kind": "witness", "tag": "multi1", "tool": "cli_multi", "src": "x = 1", "srcs": ["x = 1", "", "import b, a\ny = 2", "z = 3\n"],
+                  "use_dir": False, "script": "reformat-imports", "sp": [1, 1], "params": {}, "db": 0, "flags": [True, True, True]})
+    cases.append({"kind": "witness", "tag": "multi2", "tool": "cli_multi", "src": "import os", "srcs": ["import os", "y = 2"],
+                  "use_dir": True, "script": "tidy-imports", "sp": [1, 1], "params": {}, "db": 0, "flags": [True, True, True]})
+    cases.append({"kind": "witness", "tag": "pyproj1", "tool": "cli_pyproject",
+                  "src": "import sys, oldmod.x\nimport json\nv = os.sep  # oldmod.x\ns = 'oldmod.x'\nprint(oldmod.x, sys)\n",
+                  "cli_flags": {"add_missing": False, "remove_unused": False, "add_mandatory": False, "canonicalize": False},
+                  "pyproject": {"add_missing": True, "remove_unused": True, "add_mandatory": True, "canonicalize": True},
+                  "sp": [1, 1], "params": {}, "db": 0, "flags": [True, True, True]})
     i = 0
     ntotal = len(cases) + n
     while len(cases) < ntotal:
@@ -155,6 +168,27 @@ def gen_cases(ctx, n, ncorpus=0):
         tool = ("reformat" if k < .2 else "reformat_ft" if k < .25 else "tidy" if k < .62 else "reformat_str" if k < .7 else "star" if k < .77
                 else "broken" if k < .84 else "transform" if k < .91 else "canonicalize" if k < .95 else "cli_reformat" if k < .975 else "cli_tidy")
         rmap = None
+        if tool == "tidy" and r.random() < .08:
+            # a name used BEFORE the top-level statement that imports it, no import block ahead of the first use
+            nm, imp_ = r.choice([("os", "import os"), ("np", "import numpy as np"), ("foo", "from pkg import foo"), ("x", "import x")])
+            pro = r.choice(["", '"""doc"""\n', "# c\n\n", '#!/usr/bin/python\n"""doc"""\n# c\n'])
+            src = pro + "%s = %s.attr\n" % (r.choice(["v", "w"]), nm) + r.choice(["", "y = 2\n", "# mid\n"]) + imp_ + "\n" + \
+                r.choice(["", "print(%s)\n" % nm, "z = bar\n"])
+            cases.append({"kind": "gen", "i": i, "tool": "tidy", "src": src, "sp": [1, 1], "params": r.choice(PARAMS), "db": 1,
+                          "flags": [True, r.random() < .5, r.random() < .3]})
+            continue
+        if r.random() < .03:
+            srcs = [r.choice(["", "x = 1", "import os\nprint(os)", G.gen_compilable(r, max_elems=3, final_newline_p=.5)]) for _ in range(r.randint(2, 4))]
+            cases.append({"kind": "gen", "i": i, "tool": "cli_multi", "src": srcs[0], "srcs": srcs, "use_dir": r.random() < .35,
+                          "script": r.choice(["reformat-imports", "tidy-imports"]), "sp": [1, 1], "params": {}, "db": 0, "flags": [True, True, True]})
+            continue
+        if r.random() < .025:
+            flags = {k: r.random() < .5 for k in ("add_missing", "remove_unused", "add_mandatory", "canonicalize")}
+            body = "import sys, oldmod.x\n%s\nv = os.sep  # oldmod.x\ns = 'oldmod.x'\nprint(oldmod.x, sys)\n" % r.choice(["import json", "from m import unused1", "# nothing"])
+            cases.append({"kind": "gen", "i": i, "tool": "cli_pyproject", "src": body, "cli_flags": flags,
+                          "pyproject": {k: (not v) if r.random() < .8 else v for k, v in flags.items()},
+                          "sp": [1, 1], "params": {}, "db": 0, "flags": [True, True, True]})
+            continue
         if r.random() < .12:
             src2, rmap = with_rename_map(r, src)
             if rmap is not None:
@@ -246,6 +280,12 @@ def impl_case(c):
                 elif tool in ("cli_reformat", "cli_tidy"):
                     res = None
                     out["out"] = run_cli(tool, src)
+                elif tool == "cli_multi":
+                    res = None
+                    out.update(run_cli_multi(c))
+                elif tool == "cli_pyproject":
+                    res = None
+                    out.update(run_cli_pyproject(c))
                 else:
                     block = PythonBlock(src, startpos=tuple(c["sp"]))
                     if tool == "reformat":
@@ -319,6 +359,75 @@ def run_cli(tool, src):
             if f.read() != src:
                 raise RuntimeError("--print modified the file")
         return p.stdout.decode("utf-8")
+    finally:
+        shutil.rmtree(d, ignore_errors=True)
+
+
+def _cli(script, args, cwd, extra_env=None):
+    import os
+    import subprocess
+    import sys
+    env = dict(os.environ)
+    env.update(extra_env or {})
+    p = subprocess.run([sys.executable, os.path.join(os.environ["VERIF_REPO"], "bin", script)] + args,
+                       stdout=subprocess.PIPE, stderr=subprocess.PIPE, timeout=50, env=env, cwd=cwd)
+    if p.returncode != 0:
+        err = p.stderr.decode("utf-8", "replace")
+        if "SyntaxError" in err or "IndentationError" in err:
+            raise type("OutputUnparsable", (Exception,), {})(err[-200:])
+        for name in sorted(C03_EXCEPTIONS):
+            if ("." + name) in err or (name + ":") in err:
+                raise type(name, (Exception,), {})(err[-200:])
+        raise RuntimeError("CLI exit status %d: %s" % (p.returncode, err[-300:]))
+    return p.stdout.decode("utf-8")
+
+
+def run_cli_multi(c):
+    """several files (or their directory) in ONE --print invocation vs one invocation per file"""
+    import os
+    import shutil
+    import tempfile
+    d = tempfile.mkdtemp(prefix="verif-c01-")
+    try:
+        sub = os.path.join(d, "pk")
+        os.mkdir(sub)
+        paths = []
+        for k, src in enumerate(c["srcs"]):
+            path = os.path.join(sub, "m%d.py" % k)
+            with open(path, "w", encoding="utf-8", newline="") as f:
+                f.write(src)
+            paths.append(path)
+        singles = [_cli(c["script"], ["--print", pth], d) for pth in paths]
+        multi = _cli(c["script"], ["--print"] + ([sub] if c["use_dir"] else paths), d)
+        return {"out": singles[0], "singles": singles, "multi": multi}
+    finally:
+        shutil.rmtree(d, ignore_errors=True)
+
+
+def run_cli_pyproject(c):
+    """tidy-imports with every relevant flag given explicitly, (A) in a directory whose pyproject.toml
+    [tool.pyflyby] says otherwise, (B) in a directory without pyproject.toml: the command line wins"""
+    import os
+    import shutil
+    import tempfile
+    d = tempfile.mkdtemp(prefix="verif-c01-")
+    try:
+        outs = {}
+        db = os.path.join(d, "db.py")
+        with open(db, "w") as f:
+            f.write("import os\nimport json\n__canonical_imports__ = {'oldmod.x': 'newmod.y'}\n__mandatory_imports__ = ['import mandatory1']\n")
+        args = ["--print"] + ["--%s%s" % ("" if v else "no-", k.replace("_", "-")) for k, v in sorted(c["cli_flags"].items())]
+        for tag in ("A", "B"):
+            wd = os.path.join(d, tag)
+            os.mkdir(wd)
+            if tag == "A":
+                with open(os.path.join(wd, "pyproject.toml"), "w") as f:
+                    f.write("[tool.pyflyby]\n" + "".join("%s = %s\n" % (k, "true" if v else "false") for k, v in sorted(c["pyproject"].items())))
+            path = os.path.join(wd, "m.py")
+            with open(path, "w", encoding="utf-8", newline="") as f:
+                f.write(c["src"])
+            outs[tag] = _cli("tidy-imports", args + [path], wd, {"PYFLYBY_PATH": db})
+        return {"out": outs["A"], "with_pyproject": outs["A"], "without_pyproject": outs["B"]}
     finally:
         shutil.rmtree(d, ignore_errors=True)
 
@@ -488,9 +597,14 @@ def match_with_options(rin, rout, opts, forbidden):
         if rout[j:j + len(seg)] != seg:
             return False
         j2 = j + len(seg)
-        for alt in alts:
+        for alt, tlen in alts:
             if rout.startswith(alt, j2):
-                if alt and guarded and (j2 in forbidden or j2 + len(alt) in forbidden):
+                # a line break in place of an import: only where the output has NO import statement
+                if alt and guarded == "emptied" and (j2 in forbidden or j2 + len(alt) in forbidden):
+                    continue
+                # blank line(s) after the prologue: only together with a new import block, i.e. an import
+                # statement of the output was deleted exactly there (after the optional line terminator)
+                if alt and guarded == "prologue" and (j2 + tlen) not in forbidden:
                     continue
                 if go(k + 1, p, j2 + len(alt)):
                     return True
@@ -527,15 +641,15 @@ def frame_oracle(src, out, inserts=None):
     for a, b in ein:
         ls = src.rfind("\n", 0, a) + 1
         if src[ls:a].strip():                       # the statement shares its line with preceding code
-            opts.setdefault(a - gone, []).append((["\n", ""], True))
+            opts.setdefault(a - gone, []).append(([("\n", 0), ("", 0)], "emptied"))
         gone += b - a
     if eout:
         k = prologue_end(src, ein)
         pro = rin[:k]
         terms = ["\n", ""] if (pro and not pro.endswith("\n")) else [""]
         ms = (2, 1) if inserts is None else ((inserts,) if inserts else ())
-        alts = [t + "\n" * m for t in terms for m in ms] + [""]
-        opts.setdefault(k, []).insert(0, (alts, False))
+        alts = [(t + "\n" * m, len(t)) for t in terms for m in ms] + [("", 0)]
+        opts.setdefault(k, []).insert(0, (alts, "prologue"))
     flat = [(p, alts, g) for p in sorted(opts) for alts, g in opts[p]]
     if match_with_options(rin, rout, flat, forbidden):
         return None
@@ -611,7 +725,17 @@ def run(ctx):
         "block selection (find_import_block_by_lineno, select_import_block_by_closest_prefix_match) and the import-set algebra belong to C03/C04 (S2S/Tidy.v); a tool that raises is counted, not compared",
     ]
     cases = cm.load_corpus("C01") + gen_cases(ctx, n, ncorpus)
-    impl = cm.run_impl("c01", "impl_case", cases, timeout_case=60)
+    # observables must not depend on the log level (20% DEBUG, 10% WARNING at import, the rest ERROR)
+    impl = [None] * len(cases)
+    groups = {"ERROR": [], "DEBUG": [], "WARNING": []}
+    for i in range(len(cases)):
+        k = cm.derive_seed(ctx.seed, "c01-loglevel", i) % 20
+        groups["DEBUG" if k < 4 else "WARNING" if k < 6 else "ERROR"].append(i)
+    for level, idxs in groups.items():
+        res = cm.run_impl("c01", "impl_case", [cases[i] for i in idxs], timeout_case=120, env_extra={"PYFLYBY_LOG_LEVEL": level})
+        for i, rr in zip(idxs, res):
+            impl[i] = rr
+            ctx.bump("loglevel:" + level)
     exprs, where = [], []
     for ci, (c, im) in enumerate(zip(cases, impl)):
         if "__exc__" in im or "__timeout__" in im:
@@ -732,6 +856,26 @@ def compare_one(ctx, c, im, mvs):
         ctx.disagreement("no transformer pass recorded", short(c), None, None)
     if im["passes"] and im["out"] != im["passes"][-1]["out"]:
         ctx.disagreement("tool result is not the output of its last pass", short(c), im["out"][-80:], im["passes"][-1]["out"][-80:])
+    if c["tool"] == "cli_multi":
+        if im["multi"] != "".join(im["singles"]):
+            ctx.violation("reformat_frame", short(c), "--print of several files in one invocation is not the concatenation of the single-file outputs: %r vs %r"
+                          % (im["multi"][:200], "".join(im["singles"])[:200]))
+        for s1, o1 in zip(c["srcs"], im["singles"]):
+            r1 = frame_oracle(s1, o1, None)
+            if r1 is not None and r1[0] == "frame":
+                ctx.violation("reformat_frame", short(c), r1[1])
+        ctx.count(short(c), True)
+        return
+    if c["tool"] == "cli_pyproject":
+        if im["with_pyproject"] != im["without_pyproject"]:
+            ctx.violation("edit_frame/insert_frame", short(c), "flags given on the command line are overridden by pyproject.toml: with %r / without %r"
+                          % (im["with_pyproject"][:300], im["without_pyproject"][:300]))
+        if not c["cli_flags"]["canonicalize"]:
+            r1 = frame_oracle(src, im["with_pyproject"], None)
+            if r1 is not None and r1[0] == "frame":
+                ctx.violation("edit_frame/insert_frame", short(c), r1[1])
+        ctx.count(short(c), True)
+        return
     # ---- oracle
     inserts = sum(p["inserts"] for p in im["passes"]) if im["passes"] else None
     r = frame_oracle(src, im["out"], inserts)
